@@ -1110,7 +1110,7 @@ pub fn run_tier(paths: &Paths, seed: u64, n: u64, nworkers: usize, selfcheck: u6
                 continue;
             }
             if out.violations.len() < 50 {
-                let path = paths.verif.join("replays").join(format!("C11-{seed}-L{run}.json"));
+                let path = paths.out.join("replays").join(format!("C11-{seed}-L{run}.json"));
                 let rec = json!({
                     "property": "C11", "tier": "L", "seed": seed, "run": run,
                     "plan": viol["plan"], "violation": {"invariant": viol["invariant"], "detail": viol["detail"]},
